@@ -76,6 +76,16 @@ def translate():
     return json.load(open(st)).get("failed", {})
 
 
+def fingerprints():
+    """static tie of the hand-written model to the source: units of include/ffsm2/machine.hpp whose hash differs
+    from the one recorded when the model was validated; returns dict property -> [unit, ...] (or {"*": msg})"""
+    rc, out = run([sys.executable, os.path.join(VERIF, "tools", "fingerprint.py")])
+    try:
+        return json.loads(out.strip().split("\n")[-1])
+    except Exception:
+        return {"error": "fingerprint tool failed: " + out.strip()[-400:], "props": {}}
+
+
 def lake_build(target, timeout=1800):
     rc, out = run(["lake", "build", target], cwd=LEAN, timeout=timeout)
     return rc == 0, out
